@@ -275,26 +275,26 @@ Proof. vm_compute. repeat split. Qed.
 (* ---- index and slice-bound normalisation as translated from /repo's sources on this run ----------
    (tools/rs2v.py -> Extracted/RsIndex.v, RsConv.v).  The reference semantics slices through
    Core.Slice.convert_slice_indices; these theorems say values/index.rs computes exactly that. *)
-From SV Require Rs.Prelude Rs.Proofs Extracted.RsIndex Extracted.RsConv.
+From SV Require Rs.Prelude Rs.ProofsIndex Extracted.RsIndex Extracted.RsConv.
 
 Theorem C01_source_slice_indices : forall len s e st,
-  SV.Rs.Proofs.wfv s -> SV.Rs.Proofs.wfv e -> SV.Rs.Proofs.wfv st ->
+  SV.Rs.ProofsIndex.wfv s -> SV.Rs.ProofsIndex.wfv e -> SV.Rs.ProofsIndex.wfv st ->
   SV.Extracted.RsIndex.rs_convert_slice_indices len s e st =
-  SV.Rs.Proofs.slice_res len (SV.Rs.Proofs.bnd s) (SV.Rs.Proofs.bnd e) (SV.Rs.Proofs.bnd st).
-Proof. exact SV.Rs.Proofs.rs_convert_slice_indices_eq. Qed.
+  SV.Rs.ProofsIndex.slice_res len (SV.Rs.ProofsIndex.bnd s) (SV.Rs.ProofsIndex.bnd e) (SV.Rs.ProofsIndex.bnd st).
+Proof. exact SV.Rs.ProofsIndex.rs_convert_slice_indices_eq. Qed.
 
 (* clamping a bound to i32 first (unpack_slice_bound) is invisible for a sequence whose length fits i32 *)
 Theorem C01_source_clamp_invisible : forall len x d mn mx,
   0 <= len <= SV.Rs.Prelude.i32_MAX -> -1 <= mn <= mx -> mx <= len ->
-  SV.Core.Slice.convert_index_aux len (Some (SV.Rs.Proofs.clamp32 x)) d mn mx =
+  SV.Core.Slice.convert_index_aux len (Some (SV.Rs.ProofsIndex.clamp32 x)) d mn mx =
   SV.Core.Slice.convert_index_aux len (Some x) d mn mx.
-Proof. exact SV.Rs.Proofs.convert_index_aux_clamp. Qed.
+Proof. exact SV.Rs.ProofsIndex.convert_index_aux_clamp. Qed.
 
 Theorem C01_source_convert_index : forall x len,
   0 <= len <= SV.Rs.Prelude.i32_MAX -> SV.Int.Model.wf (SV.Int.Model.Small x) ->
   SV.Rs.Prelude.m_ok (SV.Extracted.RsIndex.rs_convert_index (SV.Rs.Prelude.VInt (SV.Int.Model.Small x)) len) =
   SV.Core.Slice.convert_index x len.
-Proof. exact SV.Rs.Proofs.rs_convert_index_eq. Qed.
+Proof. exact SV.Rs.ProofsIndex.rs_convert_index_eq. Qed.
 
 (* the start/end window of str.find/index/count/startswith/endswith (convert_indices.rs) *)
 Theorem C01_source_str_window_indices : forall len s e,
@@ -303,8 +303,8 @@ Theorem C01_source_str_window_indices : forall len s e,
   match e with Some x => SV.Rs.Prelude.i32_MIN <= x <= SV.Rs.Prelude.i32_MAX | None => True end ->
   let norm := fun (o : option Z) d => let x := match o with Some x => x | None => d end in if x <? 0 then x + len else x in
   SV.Extracted.RsConv.rs_convert_indices len s e =
-  (SV.Rs.Proofs.bound_spec (norm s 0) len, SV.Rs.Proofs.bound_spec (norm e len) len).
-Proof. exact SV.Rs.Proofs.rs_convert_indices_spec. Qed.
+  (SV.Rs.ProofsIndex.bound_spec (norm s 0) len, SV.Rs.ProofsIndex.bound_spec (norm e len) len).
+Proof. exact SV.Rs.ProofsIndex.rs_convert_indices_spec. Qed.
 
 Example C01_source_nonvacuous :
   SV.Extracted.RsIndex.rs_convert_slice_indices 5 (Some (SV.Rs.Prelude.VInt (SV.Int.Model.Big (- 2 ^ 40)))) None
@@ -316,25 +316,25 @@ Proof. split; vm_compute; reflexivity. Qed.
 From SV Require Extracted.RsRange.
 
 Theorem C01_source_range_length : forall lo hi st,
-  SV.Rs.Proofs.i32b lo -> SV.Rs.Proofs.i32b hi -> SV.Rs.Proofs.i32b st -> st <> 0 ->
+  SV.Rs.ProofsIndex.i32b lo -> SV.Rs.ProofsIndex.i32b hi -> SV.Rs.ProofsIndex.i32b st -> st <> 0 ->
   SV.Extracted.RsRange.rs_range_length {| SV.Rs.Prelude.f_start := lo; SV.Rs.Prelude.f_stop := hi; SV.Rs.Prelude.f_step := st |} =
   (let n := SV.Core.Values.range_len lo hi st in
    if n <=? 2147483647 then SV.Rs.Prelude.ROk n else SV.Rs.Prelude.RErr SV.Rs.Prelude.E_IntegerOverflow).
-Proof. exact SV.Rs.Proofs.rs_range_length_eq. Qed.
+Proof. exact SV.Rs.ProofsIndex.rs_range_length_eq. Qed.
 
 Theorem C01_source_range_truth : forall lo hi st, st <> 0 ->
   SV.Extracted.RsRange.rs_range_to_bool {| SV.Rs.Prelude.f_start := lo; SV.Rs.Prelude.f_stop := hi; SV.Rs.Prelude.f_step := st |} =
   (0 <? SV.Core.Values.range_len lo hi st).
-Proof. exact SV.Rs.Proofs.rs_range_to_bool_eq. Qed.
+Proof. exact SV.Rs.ProofsIndex.rs_range_to_bool_eq. Qed.
 
 Theorem C01_source_range_contains : forall lo hi st x,
-  SV.Rs.Proofs.i32b lo -> SV.Rs.Proofs.i32b hi -> SV.Rs.Proofs.i32b st -> st <> 0 ->
+  SV.Rs.ProofsIndex.i32b lo -> SV.Rs.ProofsIndex.i32b hi -> SV.Rs.ProofsIndex.i32b st -> st <> 0 ->
   SV.Int.Model.wf (SV.Int.Model.Small x) ->
   SV.Extracted.RsRange.rs_range_is_in {| SV.Rs.Prelude.f_start := lo; SV.Rs.Prelude.f_stop := hi; SV.Rs.Prelude.f_step := st |}
     (SV.Rs.Prelude.VInt (SV.Int.Model.Small x)) =
   SV.Rs.Prelude.ROk (if 0 <? st then andb (andb (lo <=? x) (x <? hi)) ((x - lo) mod st =? 0)
                      else andb (andb (hi <? x) (x <=? lo)) ((lo - x) mod (- st) =? 0)).
-Proof. exact SV.Rs.Proofs.rs_range_is_in_spec. Qed.
+Proof. exact SV.Rs.ProofsIndex.rs_range_is_in_spec. Qed.
 
 Example C01_source_range_nonvacuous :
   SV.Extracted.RsRange.rs_range_length {| SV.Rs.Prelude.f_start := -2147483648; SV.Rs.Prelude.f_stop := 2147483647; SV.Rs.Prelude.f_step := 1 |}
@@ -345,13 +345,13 @@ Proof. split; vm_compute; reflexivity. Qed.
 
 (* range == range (equals_range as written today) decides equality of the two arithmetic progressions *)
 Theorem C01_source_range_equals : forall lo1 hi1 st1 lo2 hi2 st2,
-  SV.Rs.Proofs.i32b lo1 -> SV.Rs.Proofs.i32b hi1 -> SV.Rs.Proofs.i32b st1 -> st1 <> 0 ->
-  SV.Rs.Proofs.i32b lo2 -> SV.Rs.Proofs.i32b hi2 -> SV.Rs.Proofs.i32b st2 -> st2 <> 0 ->
+  SV.Rs.ProofsIndex.i32b lo1 -> SV.Rs.ProofsIndex.i32b hi1 -> SV.Rs.ProofsIndex.i32b st1 -> st1 <> 0 ->
+  SV.Rs.ProofsIndex.i32b lo2 -> SV.Rs.ProofsIndex.i32b hi2 -> SV.Rs.ProofsIndex.i32b st2 -> st2 <> 0 ->
   let n1 := SV.Core.Values.range_len lo1 hi1 st1 in
   let n2 := SV.Core.Values.range_len lo2 hi2 st2 in
   n1 <= 2147483647 -> n2 <= 2147483647 ->
   exists b, SV.Extracted.RsRange.rs_range_equals_range
               {| SV.Rs.Prelude.f_start := lo1; SV.Rs.Prelude.f_stop := hi1; SV.Rs.Prelude.f_step := st1 |}
               {| SV.Rs.Prelude.f_start := lo2; SV.Rs.Prelude.f_stop := hi2; SV.Rs.Prelude.f_step := st2 |} = SV.Rs.Prelude.ROk b /\
-            (b = true <-> SV.Rs.Proofs.range_seq lo1 st1 (Z.to_nat n1) = SV.Rs.Proofs.range_seq lo2 st2 (Z.to_nat n2)).
-Proof. exact SV.Rs.Proofs.rs_range_equals_spec. Qed.
+            (b = true <-> SV.Rs.ProofsIndex.range_seq lo1 st1 (Z.to_nat n1) = SV.Rs.ProofsIndex.range_seq lo2 st2 (Z.to_nat n2)).
+Proof. exact SV.Rs.ProofsIndex.rs_range_equals_spec. Qed.
